@@ -17,6 +17,8 @@ structure S where
   rid : List (String × Nat) := []        -- uri ↦ rid
   uriOf : List (Nat × String) := []
   dsid : List (String × Nat) := []       -- live dataset names
+  pubNs : List (String × Json) := []     -- live dataset name ↦ public namespaces (meta entity)
+  ever : List String := []               -- every dataset name that ever existed
   times : Array Nat := #[]
   conts : List (String × (Nat × Nat × Nat × List Nat × Bool × Option RefKey)) := []  -- label ↦ (start, pred, at, scope, inverse, key); key none = finished
   lastT : Nat := 0
@@ -194,6 +196,25 @@ def doQuery (a : Acc) (q : Json) : R Acc := do
     let o := lookup s (← getStr q "id") scope at_
     let _ := named
     return { a with outM := a.outM.push o, outS := a.outS.push o, nt := a.nt + 1 }
+  | "catalogue" =>
+    let names := Hub.Store.sortBy (fun (x y : String) => x < y) ("core.Dataset" :: s.dsid.map (·.1))
+    let asked ← strList (← getObj q "names")
+    let metaOf (real : Bool) (n : String) : Json :=
+      if n == "core.Dataset" then
+        -- known finding D22: the counter of core.Dataset's own meta entity is never maintained
+        let cnt := if real then 0 else (s.ever.length + 1)   -- one meta entity per name ever created, plus its own
+        Json.mkObj [("deleted", Json.bool false), ("name", Json.str n), ("items", jNat cnt)]
+      else match s.dsid.lookup n with
+      | some d =>
+        let base := [("deleted", Json.bool false), ("name", Json.str n), ("items", jNat (s.db.itemsOf d))]
+        let pn := (s.pubNs.lookup n).getD Json.null
+        Json.mkObj (if pn.isNull then base else base ++ [("publicNamespaces", pn)])
+      | none => if s.ever.contains n then Json.mkObj [("deleted", Json.bool true)] else Json.null
+    let mk (real : Bool) : Json := Json.mkObj [("names", jStrs names), ("meta", Json.mkObj (asked.map fun n => (n, metaOf real n)))]
+    let hasCore := asked.contains "core.Dataset"
+    return { a with outM := a.outM.push (mk true), outS := a.outS.push (mk false), nt := a.nt + 1,
+                    kf := if hasCore then (match a.kf with | some k => some k | none => some "core.Dataset-own-items-counter") else a.kf,
+                    kfi := if hasCore then a.outM.size :: a.kfi else a.kfi }
   | "related" =>
     let limit := getNatD q "limit" 0
     let inverse := getBoolD q "inverse" false
@@ -281,7 +302,13 @@ def doOp (a : Acc) (idx : Nat) (op : Json) : R Acc := do
   match kind with
   | "createDs" =>
     match getOpt op "dsid" with
-    | some d => let n ← asNat d; return { a with s := { s with dsid := (← getStr op "name", n) :: s.dsid } }
+    | some d =>
+      let n ← asNat d
+      let name ← getStr op "name"
+      if (s.dsid.lookup name).isSome then return a   -- exists already: CreateDataset returns it
+      let pn := (getOpt op "publicNamespaces").getD Json.null
+      return { a with s := { s with dsid := (name, n) :: s.dsid, pubNs := (name, pn) :: s.pubNs.filter (·.1 != name),
+                                    ever := if s.ever.contains name then s.ever else name :: s.ever } }
     | none => return a
   | "store" =>
     if !okRc then return a
@@ -319,7 +346,29 @@ def doOp (a : Acc) (idx : Nat) (op : Json) : R Acc := do
     let name ← getStr op "name"
     match s.dsid.lookup name with
     | none => return a
-    | some ds => return { a with s := { s with dsid := (← getStr op "to", ds) :: s.dsid.filter (·.1 != name) } }
+    | some ds =>
+      let to ← getStr op "to"
+      let pn := (s.pubNs.lookup name).getD Json.null
+      return { a with s := { s with dsid := (to, ds) :: s.dsid.filter (·.1 != name),
+                                    pubNs := (to, pn) :: s.pubNs.filter (fun x => x.1 != name && x.1 != to),
+                                    ever := if s.ever.contains to then s.ever else to :: s.ever } }
+  | "dup" =>
+    if !okRc then return a
+    match s.dsid.lookup (← getStr op "ds"), s.rid.lookup (← getStr op "id") with
+    | some ds, some rid =>
+      match s.db.latestOf ds rid, s.db.stored ds rid with
+      | some k0, some cur =>
+        let t := getNatD op "t" (s.lastT + 1)
+        let je := (s.ents.find? (·.1 == k0)).map (·.2)
+        let tbl := match je with | some j => ((⟨rid, ds, t, 0⟩ : VKey), j) :: s.ents | none => s.ents
+        return { a with s := { s with db := injectVersion s.db ds t cur, ents := tbl, lastT := t } }
+      | _, _ => return a
+    | _, _ => return a
+  | "compact" =>
+    if !okRc then return a
+    match s.dsid.lookup (← getStr op "ds") with
+    | some ds => return { a with s := { s with db := compact s.db ds } }
+    | none => return a
   | "gc" =>
     let dd := s.db.deletedDs
     return { a with s := { s with db := { s.db with
